@@ -26,6 +26,9 @@ def check(repo: Repo, rep, tier):
     result_unmodified(repo, rep)
     one_mode(repo, rep)
     mode_table(repo, rep)
+    from .C16 import fmt_shell
+
+    fmt_shell(repo, rep)
     stale_bindings(repo, rep, {"config"}, "e.g. a copied `config` never sees the format-command of the session, so whole-file and fragment formatting disagree")
 
 
